@@ -453,7 +453,7 @@ MUTANTS = [
         self'''),
     dict(id="c08-insert-under-rewritten-name", prop="C08", file="src/client.rs", expect="C08-R4",
          what="client map keyed by the rewritten name",
-         old='''            .insert(client_given_name, (new_parse.clone(), hash));''', new='''            .insert(new_parse.name.clone(), (new_parse.clone(), hash));'''),
+         old='''            .insert(client_given_name.clone(), (new_parse.clone(), hash));''', new='''            .insert(new_parse.name.clone(), (new_parse.clone(), hash));'''),
     dict(id="c15-guard-skips-auth-query", prop="C15", file="src/config.rs", expect="C15-S",
          what="D15 again: is_auth_query_configured does not test auth_query",
          old='''        self.auth_query.is_some()
